@@ -256,6 +256,8 @@ func run[T signal.SignalTypes](c *Case) (res kit.Result) {
 	if C >= 2 && c.N > 0 && cp > ln {
 		res.Class("partialFrames")
 	}
+	var twin *signal.Buffer[T]
+	var twinHdr kit.Hdr
 	every := 1
 	if c.N*len(model) > 1<<16 {
 		every = c.N/16 + 1
@@ -289,6 +291,29 @@ func run[T signal.SignalTypes](c *Case) (res kit.Result) {
 				res.Failf("%s: %s", what, d)
 				return
 			}
+		}
+		if j == c.N/2 && c.Over == 0 {
+			// the same frames of the parent sliced again, while the first window has grown: a second
+			// window is another buffer, it has the original length and the appends do not move it
+			first := root.Slice(c.A, c.B)
+			if n0 := C * (c.B - c.A); n0 < cp {
+				// ... and grown by one sample itself (it overwrites the first sample appended above)
+				first.AppendSample(v)
+				model[off+n0] = v
+			}
+			twin = root.Slice(c.A, c.B) // the very next Slice call on the parent, with identical bounds
+			twinHdr = kit.ModelHdr(C, C*(c.B-c.A), cp, bits)
+			if h := kit.HdrOf(twin); h != twinHdr {
+				res.Failf("%s: slicing frames [%d,%d) of the parent again gave %+v, want %+v (the first window has Len %d by now)", what, c.A, c.B, h, twinHdr, ln)
+				return
+			}
+			res.Class("sameFramesSlicedAgainMidway")
+		}
+	}
+	if twin != nil {
+		if h := kit.HdrOf(twin); h != twinHdr {
+			res.Failf("after %d calls: the second window over the same frames changed from %+v to %+v although nothing was appended through it", c.N, twinHdr, h)
+			return
 		}
 	}
 	if d := kit.DiffSlice("root storage", kit.Snap(root), model); d != "" {
